@@ -35,6 +35,8 @@ def showAns : Ans → String
 def parseOutcome (s : String) : Option Outcome :=
   match s.splitOn ":" with
   | ["ret", "none"] => some (.ret .none)
+  | ["ret", "unpicklable"] => some (.retU 1000)
+  | ["raise", "unpicklable"] => some (.raiseU 97)
   | ["ret", v] => v.toNat?.map (fun n => .ret (.val n))
   | ["raise", e] => e.toNat?.map .raise
   | ["exit", "none"] => some (.exit .none)
@@ -59,7 +61,7 @@ def parseKill (s : String) : Option (Option (Phase × Nat)) :=
     | _, _ => none
   | _ => none
 
-def childActs : List Act := [.cBoot, .cTargetEnd, .cSend1, .cSend2, .cExit]
+def childActs : List Act := [.cBoot, .cTargetEnd, .cSend1, .cSend2, .cSendFail, .cExit]
 def parentActs : List Act := [.kRecv, .kEof, .kEofCode, .kSentinel, .kPutEnd, .logStop, .kJoinLog, .kResolve]
 
 /-- fire the first enabled action of `acts`, if any -/
